@@ -12,7 +12,10 @@ from . import common
 
 FORMATS = ["pdb", "pdffit", "discus", "xyz", "rawxyz", "xcfg", "cif"]
 HUGE = "1" + "0" * 400          # a valid int and a float that overflows to inf
-REPL = ["", " ", "abc", "0", "-1", HUGE, "nan", "inf", "1,2", "#"]   # " " = blank out keeping the columns
+DIGITS4301 = "9" * 4301          # str.isdigit() holds, int() refuses (CPython's 4300-digit limit), float() gives inf
+# " " = blank out keeping the columns; "\u00b3" (superscript three): isdigit() but neither int() nor float() accept it;
+# "\u0663" (Arabic-Indic three) and "1_0": accepted by int() and float() although str(int(w)) != w
+REPL = ["", " ", "abc", "0", "-1", HUGE, "nan", "inf", "1,2", "#", "\u00b3", "\u0663", "1_0", DIGITS4301]
 WATCHDOG_S = 5.0
 
 
